@@ -44,9 +44,10 @@ def V(prop: str, kind: str, msg: str, **sig) -> dict:
 
 
 class Outcome:
-    __slots__ = ("violations", "tags", "nontrivial", "key", "info", "metrics")
+    __slots__ = ("violations", "tags", "nontrivial", "key", "info", "metrics", "replay")
 
-    def __init__(self, violations=None, tags=None, nontrivial=False, key=None, info=None, metrics=None):
+    def __init__(self, violations=None, tags=None, nontrivial=False, key=None, info=None, metrics=None, replay=None):
+        self.replay = replay  # optional (layer name, case): what to write into the replay file instead of this case
         self.metrics: dict = dict(metrics or {})  # integer counters summed over all cases of the run
         self.violations: list[dict] = list(violations or [])
         self.tags: list[str] = list(tags or [])
